@@ -33,6 +33,15 @@ type RetryParams struct {
 	CancelAtUs int64    `json:"cancel_at_us,omitempty"` // cancel the context at this simulated instant (0 = never)
 	Cache      bool     `json:"cache,omitempty"`
 	Probe      []int    `json:"probe,omitempty"` // attempt numbers for which the policy is asked directly
+	// More: further requests sent through the same client after the first one
+	// (cached schemes and tokens come into play)
+	More []MoreReq `json:"more,omitempty"`
+}
+
+type MoreReq struct {
+	Behaviours []string `json:"behaviours"`
+	Body       string   `json:"body"`
+	BodySize   int      `json:"body_size,omitempty"`
 }
 
 type retryProp struct{}
@@ -87,6 +96,20 @@ func (p *retryProp) Gen(r *Rand, tier string, idx int) any {
 		rp.CancelAtUs = int64(r.Range(1, 4000))*1000 + 1
 	}
 	rp.Cache = r.Bool()
+	if r.Chance(0.4) {
+		rp.Cache = true
+		rp.CancelAtUs = 0
+		for k := r.Range(1, 2); k > 0; k-- {
+			m := MoreReq{Body: pick(r, []string{"none", "replayable", "replayable", "oneshot"})}
+			if m.Body != "none" {
+				m.BodySize = pick(r, []int{1, 17, 4096, 70000})
+			}
+			for j := r.Intn(4); j > 0; j-- {
+				m.Behaviours = append(m.Behaviours, pick(r, []string{"401-bearer", "401-bearer", "401-basic", "500", "timeout", "429:1", "200"}))
+			}
+			rp.More = append(rp.More, m)
+		}
+	}
 	for i := 0; i < 6; i++ {
 		rp.Probe = append(rp.Probe, pick(r, []int{0, 1, 2, 5, 10, 30, 39, 40, 41, 62, 63, 64, 100, 200}))
 	}
@@ -142,6 +165,7 @@ type attemptRec struct {
 	errKind   string
 	retryAftr int
 	token     bool
+	req       int
 }
 
 type retryServer struct {
@@ -150,6 +174,9 @@ type retryServer struct {
 	start    time.Time
 	attempts []*attemptRec
 	next     int
+	tokens   int
+	cur      int      // index of the request being served (0 = first)
+	beh      []string // behaviours of the current request
 }
 
 const retryUser, retryPass = "retry-user", "retry-pass"
@@ -168,7 +195,7 @@ func (s *retryServer) RoundTrip(req *http.Request) (*http.Response, error) {
 	}
 	s.mu.Lock()
 	defer s.mu.Unlock()
-	rec := &attemptRec{at: time.Since(s.start), authz: req.Header.Get("Authorization"), body: body, hadBody: had}
+	rec := &attemptRec{at: time.Since(s.start), authz: req.Header.Get("Authorization"), body: body, hadBody: had, req: s.cur}
 	mk := func(status int, hdr http.Header, b string) (*http.Response, error) {
 		rec.status = status
 		if hdr == nil {
@@ -179,12 +206,14 @@ func (s *retryServer) RoundTrip(req *http.Request) (*http.Response, error) {
 	if strings.HasPrefix(req.URL.Path, "/token") {
 		rec.token = true
 		s.attempts = append(s.attempts, rec)
-		return mk(200, nil, `{"access_token":"retry-token"}`)
+		s.tokens++
+		// every fetch yields a new token, so that each re-send carries its own Authorization value
+		return mk(200, nil, fmt.Sprintf(`{"access_token":"retry-token-%d"}`, s.tokens))
 	}
 	s.attempts = append(s.attempts, rec)
 	b := "200"
-	if s.next < len(s.rp.Behaviours) {
-		b = s.rp.Behaviours[s.next]
+	if s.next < len(s.beh) {
+		b = s.beh[s.next]
 		s.next++
 	}
 	rec.behaviour = b
@@ -197,7 +226,7 @@ func (s *retryServer) RoundTrip(req *http.Request) (*http.Response, error) {
 		}
 		return mk(401, http.Header{"Www-Authenticate": {`Basic realm="r"`}}, "")
 	case b == "401-bearer":
-		if rec.authz == "Bearer retry-token" {
+		if strings.HasPrefix(rec.authz, "Bearer retry-token-") {
 			return mk(200, nil, "ok")
 		}
 		return mk(401, http.Header{"Www-Authenticate": {`Bearer realm="https://retry.test/token",service="retry.test",scope="repository:r:pull"`}}, "")
@@ -266,6 +295,15 @@ func (p *retryProp) run(rc *RunCtx, rp *RetryParams, info *RunInfo) *Verdict {
 	var cancelAt time.Duration
 	var returnedAt time.Duration
 	var probeViol *Verdict
+	type moreResult struct {
+		status int
+		err    error
+	}
+	var moreRes []moreResult
+	morePayload := func(m MoreReq) []byte {
+		return bytes.Repeat([]byte("fedcba9876543210"), m.BodySize/16+1)[:m.BodySize]
+	}
+	srv.beh = rp.Behaviours
 	res := simrt.Run(rc.NextConfig(), func() {
 		srv.start = time.Now()
 		// direct questions to the policy: every attempt number, retryable outcome
@@ -314,6 +352,30 @@ func (p *retryProp) run(rc *RunCtx, rp *RetryParams, info *RunInfo) *Verdict {
 		if resp != nil {
 			resp.Body.Close()
 		}
+		for k, m := range rp.More {
+			srv.mu.Lock()
+			srv.cur, srv.beh, srv.next = k+1, m.Behaviours, 0
+			srv.mu.Unlock()
+			var b io.Reader
+			switch m.Body {
+			case "replayable":
+				b = bytes.NewReader(morePayload(m))
+			case "oneshot":
+				b = &oneShot{r: bytes.NewReader(morePayload(m))}
+			}
+			method := http.MethodGet
+			if b != nil {
+				method = http.MethodPut
+			}
+			rq, _ := http.NewRequestWithContext(context.Background(), method, "https://retry.test/v2/r/manifests/y", b)
+			rs, err := client.Do(rq)
+			mr := moreResult{err: err}
+			if rs != nil {
+				mr.status = rs.StatusCode
+				rs.Body.Close()
+			}
+			moreRes = append(moreRes, mr)
+		}
 	})
 	rc.Done(res)
 	info.absorb(res)
@@ -343,72 +405,85 @@ func (p *retryProp) run(rc *RunCtx, rp *RetryParams, info *RunInfo) *Verdict {
 	if probeViol != nil {
 		return probeViol
 	}
-	// group resource attempts into sends by Authorization header
-	var sends [][]*attemptRec
-	for _, a := range srv.attempts {
-		if a.token {
-			continue
-		}
-		if n := len(sends); n > 0 && sends[n-1][0].authz == a.authz {
-			sends[n-1] = append(sends[n-1], a)
-		} else {
-			sends = append(sends, []*attemptRec{a})
-		}
-	}
 	retried := false
-	for si, send := range sends {
-		if len(send) > rp.MaxRetry+1 {
-			return violation("too-many-attempts", "", "send %d was attempted %d times with MaxRetry %d\n%s", si+1, len(send), rp.MaxRetry, describe())
+	for reqIdx := 0; reqIdx <= len(rp.More); reqIdx++ {
+		bodyKind, payload := rp.Body, payload
+		if reqIdx > 0 {
+			m := rp.More[reqIdx-1]
+			bodyKind, payload = m.Body, morePayload(m)
 		}
-		for ai, a := range send {
-			// whole body on every attempt
-			if rp.Body != "none" {
-				if ai > 0 || si > 0 {
-					retried = true
-				}
-				if !bytes.Equal(a.body, payload) {
-					if rp.Body == "oneshot" {
-						return violation("one-shot-body-resent-truncated", "", "attempt %d of send %d carried %d of %d body bytes of a body that cannot be replayed\n%s", ai+1, si+1, len(a.body), len(payload), describe())
-					}
-					return violation("body-not-rewound", "", "attempt %d of send %d carried %d of %d body bytes\n%s", ai+1, si+1, len(a.body), len(payload), describe())
-				}
-			}
-			if ai == 0 {
+		// group resource attempts into sends by Authorization header
+		var sends [][]*attemptRec
+		for _, a := range srv.attempts {
+			if a.token || a.req != reqIdx {
 				continue
 			}
-			retried = true
-			prev := send[ai-1]
-			retryable := prev.errKind == "timeout" || prev.status == 408 || prev.status == 429 || prev.status >= 500
-			if !retryable {
-				return violation("retried-non-retryable", "", "attempt %d of send %d follows a non-retryable answer (%d %s)\n%s", ai+1, si+1, prev.status, prev.errKind, describe())
-			}
-			pause := a.at - prev.at
-			if pause < minWait || pause > maxWait {
-				return violation("pause-out-of-bounds", "", "pause before attempt %d of send %d was %v, bounds are [%v, %v]\n%s", ai+1, si+1, pause, minWait, maxWait, describe())
-			}
-			if prev.retryAftr > 0 {
-				ra := time.Duration(prev.retryAftr) * time.Second
-				if ra >= minWait && ra <= maxWait && pause < ra {
-					return violation("retry-after-ignored", "", "pause before attempt %d of send %d was %v although the server asked for %v\n%s", ai+1, si+1, pause, ra, describe())
-				}
-			}
-			if rp.CancelAtUs > 0 && cancelAt > 0 && a.at > cancelAt {
-				return violation("attempt-after-cancel", "", "attempt %d of send %d arrived at %v, after the context was cancelled at %v\n%s", ai+1, si+1, a.at, cancelAt, describe())
+			if n := len(sends); n > 0 && sends[n-1][0].authz == a.authz {
+				sends[n-1] = append(sends[n-1], a)
+			} else {
+				sends = append(sends, []*attemptRec{a})
 			}
 		}
-		// a new send (after a challenge) happens without pause
-		if si > 0 {
-			prevSend := sends[si-1]
-			last := prevSend[len(prevSend)-1]
-			gap := send[0].at - last.at
-			if gap != 0 {
-				return violation("pause-after-non-retryable", "", "re-send %d started %v after the 401 it answers\n%s", si+1, gap, describe())
+		for si, send := range sends {
+			if len(send) > rp.MaxRetry+1 {
+				return violation("too-many-attempts", "", "send %d was attempted %d times with MaxRetry %d\n%s", si+1, len(send), rp.MaxRetry, describe())
+			}
+			for ai, a := range send {
+				// whole body on every attempt
+				if bodyKind != "none" {
+					if ai > 0 || si > 0 {
+						retried = true
+					}
+					if !bytes.Equal(a.body, payload) {
+						if bodyKind == "oneshot" {
+							return violation("one-shot-body-resent-truncated", "", "attempt %d of send %d carried %d of %d body bytes of a body that cannot be replayed\n%s", ai+1, si+1, len(a.body), len(payload), describe())
+						}
+						return violation("body-not-rewound", "", "attempt %d of send %d carried %d of %d body bytes\n%s", ai+1, si+1, len(a.body), len(payload), describe())
+					}
+				}
+				if ai == 0 {
+					continue
+				}
+				retried = true
+				prev := send[ai-1]
+				retryable := prev.errKind == "timeout" || prev.status == 408 || prev.status == 429 || prev.status >= 500
+				if !retryable {
+					return violation("retried-non-retryable", "", "attempt %d of send %d follows a non-retryable answer (%d %s)\n%s", ai+1, si+1, prev.status, prev.errKind, describe())
+				}
+				pause := a.at - prev.at
+				if pause < minWait || pause > maxWait {
+					return violation("pause-out-of-bounds", "", "pause before attempt %d of send %d was %v, bounds are [%v, %v]\n%s", ai+1, si+1, pause, minWait, maxWait, describe())
+				}
+				if prev.retryAftr > 0 {
+					ra := time.Duration(prev.retryAftr) * time.Second
+					if ra >= minWait && ra <= maxWait && pause < ra {
+						return violation("retry-after-ignored", "", "pause before attempt %d of send %d was %v although the server asked for %v\n%s", ai+1, si+1, pause, ra, describe())
+					}
+				}
+				if rp.CancelAtUs > 0 && cancelAt > 0 && a.at > cancelAt {
+					return violation("attempt-after-cancel", "", "attempt %d of send %d arrived at %v, after the context was cancelled at %v\n%s", ai+1, si+1, a.at, cancelAt, describe())
+				}
+			}
+			// a new send (after a challenge) happens without pause
+			if si > 0 {
+				prevSend := sends[si-1]
+				last := prevSend[len(prevSend)-1]
+				gap := send[0].at - last.at
+				if gap != 0 {
+					return violation("pause-after-non-retryable", "", "re-send %d started %v after the 401 it answers\n%s", si+1, gap, describe())
+				}
 			}
 		}
 	}
 	// non-retryable final answers return at once
-	if doErr == nil && resp != nil && len(srv.attempts) > 0 {
-		last := srv.attempts[len(srv.attempts)-1]
+	var firstReq []*attemptRec
+	for _, a := range srv.attempts {
+		if a.req == 0 {
+			firstReq = append(firstReq, a)
+		}
+	}
+	if doErr == nil && resp != nil && len(firstReq) > 0 {
+		last := firstReq[len(firstReq)-1]
 		if returnedAt != last.at {
 			return violation("pause-after-non-retryable", "", "the call returned %v after its last answer\n%s", returnedAt-last.at, describe())
 		}
@@ -416,7 +491,7 @@ func (p *retryProp) run(rc *RunCtx, rp *RetryParams, info *RunInfo) *Verdict {
 	// cancellation during a pause ends the call with the context's error
 	if rp.CancelAtUs > 0 && cancelAt > 0 && returnedAt >= cancelAt {
 		inPause := false
-		for _, a := range srv.attempts {
+		for _, a := range firstReq {
 			if a.at > cancelAt {
 				return violation("attempt-after-cancel", "", "an attempt arrived at %v, after the context was cancelled at %v\n%s", a.at, cancelAt, describe())
 			}
@@ -441,8 +516,11 @@ func (p *retryProp) run(rc *RunCtx, rp *RetryParams, info *RunInfo) *Verdict {
 		info.Nontrivial = true
 		info.Probes["retried_or_resent"]++
 	}
-	if rp.Body == "oneshot" && len(sends) > 0 && len(sends[0]) == 1 && len(rp.Behaviours) > 0 {
+	if rp.Body == "oneshot" && len(firstReq) == 1 && len(rp.Behaviours) > 0 && firstReq[0].status != 200 {
 		info.Probes["one_shot_give_up"]++
+	}
+	if len(rp.More) > 0 {
+		info.Probes["several_requests_one_client"]++
 	}
 	info.SimTime = returnedAt
 	info.StateHash = strHash(fmt.Sprint(len(srv.attempts), statusOf(resp), doErr != nil))
